@@ -72,6 +72,9 @@ def run_c07(prop, tier):
                 "classes are generated per signature; TLC judges the emitted call against TypeFollow.Normalized / Missing; "
                 "non-trivial = the call site needs a keyword moved or a default filled, or must be refused")
     rep.assumptions = ["values are distinct small ints; defaults are ints or strs"]
+    # which signature applies to a registered function is decided by the process-wide registry: spec/Registry.tla
+    import registry
+    registry.component(prop, tier, rep)
     return rep.finish()
 
 
